@@ -16,7 +16,7 @@ KINDS = ["Exception", "ValueError", "KeyboardInterrupt", "SystemExit", "BaseExce
 
 def plan(seed):
     rng = random.Random(seed)
-    prog = P.gen_program(rng)
+    prog = P.gen_program(rng, allow_classes=(seed % 3 == 0))      # every third pipeline may contain plain classes
     call = P.root_call(prog, rng)
     reach = P.reachable(prog, *prog["root"])
     victim = rng.choice(reach)
